@@ -167,6 +167,7 @@ func vReach(label string)               {}
 func vFact(key, val string)             { vFacts = append(vFacts, key+"="+val) }
 func vConcrete(x uint64, max uint64) uint64 { return x }
 func vIsSym() bool                      { return false }
+func vDebug(tag string, x interface{})  {}
 func vUF(name string, outLen int, in ...[]byte) []byte {
 	panic("VERIF-NO-NATIVE: uninterpreted function " + name)
 }
